@@ -300,11 +300,20 @@ func ParseQuery(inputQuery string) (Query, error) {
 	p := NewQueryParser(stream)
 
 	errorListener := &customErrorListener{}
+	// characters the lexer cannot tokenize are syntax errors too
+	lexer.RemoveErrorListeners()
+	lexer.AddErrorListener(errorListener)
 	p.RemoveErrorListeners()
 	p.AddErrorListener(errorListener)
 
 	listener := NewCustomQueryListener()
 	tree := p.Query()
+
+	// the grammar's start rule has no EOF: reject input left over after the query
+	if rest := p.GetCurrentToken(); len(errorListener.errors) == 0 && rest.GetTokenType() != antlr.TokenEOF {
+		errorListener.errors = append(errorListener.errors,
+			fmt.Sprintf("line %d:%d extraneous input '%s' expecting <EOF>", rest.GetLine(), rest.GetColumn(), rest.GetText()))
+	}
 
 	if len(errorListener.errors) > 0 {
 		return Query{}, fmt.Errorf("\n%s", strings.Join(errorListener.errors, "\n"))
